@@ -25,7 +25,7 @@ RULE = (
     "distinct = (kind, type, constraint-dict key, mask kind, slices, modes, precision)"
 )
 ASSUMPTIONS = [
-    "float32/complex64 results are judged with 2e-5 (amplitude, measured 1.2e-7), 2e-4 (mode overlap, measured 1.7e-6 at correlation 0.99) and 1e-4 (intensities / weights, measured 3.7e-7); float64/complex128 with 1e-12 / 1e-10",
+    "float32/complex64 results are judged with 2e-5 (amplitude, measured 6e-8), 5e-4 (mode overlap, measured 2.3e-6 at correlation 0.99 / Gram lambda_min 5e-3) and 1e-4 (mode intensities, order, weights, total intensity; measured <= 6.6e-7); float64/complex128 with 1e-12 (amplitude, order) / 1e-10 (overlap, intensities)",
     "orthogonalisation is judged when the input modes are finite, pairwise normalised overlap <= 0.99 and the smallest eigenvalue of the normalised Gram matrix is >= 5e-3 (the property's worst stated case, 5 modes at 0.99, has 1e-2); other in-situ events are counted as out of domain",
     "events whose raw input is not finite (optimiser diverged) are counted, not judged",
     "with identical_slices only slice equality and amplitude <= 1 are judged (property: slice tying is only claimed to tie slices); smoothing filters are never enabled",
@@ -44,7 +44,7 @@ TOL32, TOL64 = 2e-5, 1e-12
 
 def plan(tier, seed):
     q = tier == "quick"
-    n = {"insitu": 84 if q else 560, "dip": 200 if q else 2000, "obj": 3000 if q else 30000, "tomo": 200 if q else 2000, "orth": 1200 if q else 12000, "weights": 600 if q else 6000}
+    n = {"insitu": 126 if q else 560, "dip": 200 if q else 2000, "obj": 3000 if q else 30000, "tomo": 200 if q else 2000, "orth": 1200 if q else 12000, "weights": 600 if q else 6000}
     rest = []
     for kind in ("obj", "dip", "tomo", "orth", "weights"):
         rest += [{"kind": kind, "i": i} for i in range(n[kind])]
@@ -175,12 +175,12 @@ def judge_orth(ctx, inp, out, where):
             n = np.sqrt(n2)
             G = np.abs(o.conj() @ o.T) / np.outer(n, n)
             np.fill_diagonal(G, 0.0)
-            ctx.close(float(G.max()), 2e-4 if single else 1e-10, "modes_not_orthogonal", lambda: "max normalised overlap of the returned modes (input: %d modes, max overlap %.3f, Gram lambda_min %.3g)" % (M, corr, lam), track=prec, **f)
+            ctx.close(float(G.max()), 5e-4 if single else 1e-10, "modes_not_orthogonal", lambda: "max normalised overlap of the returned modes (input: %d modes, max overlap %.3f, Gram lambda_min %.3g)" % (M, corr, lam), track=prec, **f)
         tol_i = 1e-4 if single else 1e-10
         ctx.close(float(np.abs(np.sort(n2)[::-1] / np.sort(i_in)[::-1] - 1).max()), tol_i, "mode_intensities_changed", lambda: "sorted intensities out %s vs in %s" % (np.sort(n2)[::-1].tolist(), np.sort(i_in)[::-1].tolist()), track=prec, **f)
         if M > 1:
             rise = float(np.max((n2[1:] - n2[:-1]) / n2[:-1]))
-            ctx.close(max(0.0, rise), 1e-5 if single else 1e-12, "modes_not_descending", lambda: "mode intensities %s" % n2.tolist(), track=prec, **f)
+            ctx.close(max(0.0, rise), 1e-4 if single else 1e-12, "modes_not_descending", lambda: "mode intensities %s" % n2.tolist(), track=prec, **f)
         return dict(f, corr=corr, lam=lam, nontrivial=(M > 1 and corr >= 0.5))
 
 
